@@ -22,6 +22,13 @@ ParamsEq(a, b) == Len(a) = Len(b) /\ \A i \in 1..Len(a) : VEq(a[i], b[i])
 RECURSIVE Mentions(_, _)
 Mentions(t, nm) == (t.k # "c" /\ t.v = nm) \/ \E i \in 1..Len(t.kids) : Mentions(t.kids[i], nm)
 
+\* A LOOP snapshot is the operand stack: the event announcing a (non-fast) operator node shows that
+\* operator's arguments on top, and the OP_EXEC event that follows carries exactly those.
+LoopStackConsistent(evs) ==
+  \A j \in 2..Len(evs) :
+     (evs[j].k = "op" /\ ~evs[j].fast /\ evs[j - 1].k = "loop") =>
+        LET st == evs[j - 1].stack  ps == evs[j].ps IN
+        Len(st) >= Len(ps) /\ \A i \in 1..Len(ps) : VEq(st[Len(st) - Len(ps) + i], ps[i])
 Discs == {"sync", "buffered", "retained"}
 D(run, d) == CASE d = "sync" -> run.sync [] d = "buffered" -> run.buffered [] d = "retained" -> run.retained
 
@@ -63,6 +70,7 @@ FRun(r, ri, d) ==
      \cup
      \* LOOP positions strictly increase
      (IF \E i \in 1..(Len(loops) - 1) : loops[i + 1].pos <= loops[i].pos THEN mk("loop-order") ELSE {})
+     \cup (IF d = "sync" /\ ~LoopStackConsistent(o.evs) THEN mk("loop-stack-is-not-the-operand-stack") ELSE {})
 
 FLine(r) ==
   IF r.off.cout # "ok" \/ r.on.cout # "ok"
@@ -76,6 +84,22 @@ FLine(r) ==
          IF Len(a) # Len(b) \/ \E i \in Idx(a) : a[i].pos # b[i].pos \/ ~ParamsEq(a[i].stack, b[i].stack)
          THEN {<<"C12", r.id, ri, "retained", "loop-snapshot">>} ELSE {} : ri \in Idx(r.runs)}
   \cup
+  \* ... and the events of one evaluation stay intact while the same expression is evaluated again
+  UNION {LET a == r.runs[ri].sync.evs  b == r.runs[ri].across.evs IN
+         IF Len(a) # Len(b) \/ \E i \in Idx(a) : a[i].k # b[i].k \/
+               (a[i].k = "op" /\ (a[i].n # b[i].n \/ ~ParamsEq(a[i].ps, b[i].ps) \/ ~OutcomeEq(a[i].r, b[i].r))) \/
+               (a[i].k = "loop" /\ (a[i].pos # b[i].pos \/ ~ParamsEq(a[i].stack, b[i].stack)))
+         THEN {<<"C12", r.id, ri, "across", "events-changed-by-a-later-evaluation">>} ELSE {} : ri \in Idx(r.runs)}
+  \cup
+  \* a LOOP event announces the node at its position of the (exported) program
+  (IF ~r.on.hasprog THEN {} ELSE
+   UNION {LET lp == Loops(r.runs[ri].sync.evs) \o Loops(r.runs[ri].tryon.evs)  N == r.on.prog.nodes IN
+          IF \E i \in Idx(lp) : lp[i].pos < 1 \/ lp[i].pos > Len(N) \/
+                (LET ty == N[lp[i].pos].ty IN
+                 ty # (CASE lp[i].nty = "constant" -> "c" [] lp[i].nty = "variable" -> "v" [] lp[i].nty = "operator" -> "o"
+                         [] lp[i].nty = "fast_operator" -> "f" [] lp[i].nty = "cond" -> (IF ty = "fi" THEN "fi" ELSE "if") [] OTHER -> "?"))
+          THEN {<<"C12", r.id, ri, "sync", "loop-position-does-not-announce-its-node">>} ELSE {} : ri \in Idx(r.runs)})
+  \cup
   \* TryEval: same result with events on; its OP_EXEC events are self-consistent and match the calls
   UNION {LET run == r.runs[ri]  o == run.tryon  ops == Ops(o.evs)  loops == Loops(o.evs) IN
          (IF IsPanic(o.res) \/ ~OutcomeEq(o.res, run.tryoff) THEN {<<"C12", r.id, ri, "try", "result-changed">>} ELSE {})
@@ -84,6 +108,7 @@ FLine(r) ==
          \cup (IF Len(CustomOps(o.evs)) # Len(Calls(o.eff)) THEN {<<"C12", r.id, ri, "try", "custom-ops">>} ELSE {})
          \cup (IF \E i \in 1..(Len(loops) - 1) : loops[i + 1].pos <= loops[i].pos
                THEN {<<"C12", r.id, ri, "try", "loop-order">>} ELSE {})
+         \cup (IF ~LoopStackConsistent(o.evs) THEN {<<"C12", r.id, ri, "try", "loop-stack-is-not-the-operand-stack">>} ELSE {})
          : ri \in Idx(r.runs)}
 
 \* a finding caused by the aliased two-slot argument buffer (F-C12-1): only the late
